@@ -14,6 +14,10 @@ for d in sorted(glob.glob(S + '/*/')):
     mm = re.search(r'obligation=(\S+) \[([^\]]+)\]', det)
     if mm:
         ob = '`%s` in `%s`' % (mm.group(1), mm.group(2))
+    else:
+        mm = re.search(r'audit=(\S+)', det)
+        if mm:
+            ob = 'audit `%s`' % mm.group(1)
     also = re.findall(r'\[(C\d+): exit (\d+), (\d+) VIOLATION', det)[1:]
     extra = '; '.join('%s: %s' % (a, 'yes' if b == '1' else 'exit ' + b) for a, b, c in also)
     rows.append('| %s | %s | %s | %s | %s%s |' % (i, meta.get('summary', ''), meta.get('needs', ''), caught, ob, (' — also ' + extra) if extra else ''))
